@@ -11,7 +11,6 @@ NOTES={
  "C06a":("C06",["C06"],""),
  "C07a":("C07",["C07","C01"],"missed by the first version of C07 (no part value in [2^63, 2^64)); the boundary menu now holds every machine-integer wrap point (2^31, 2^32, 2^63, 2^64) in decimal, hex and octal"),
  "C08a":("C08",["C08","C01"],""),
- "C09a":("C09",["C09"],""),
  "C10a":("C10",["C10"],"missed by the first version of C10 (codec laws only through the default Parser); a Parser with percent-encode-single-percent-sign is now part of the codec space"),
  "C11a":("C11",["C11","C16"],"missed by the first version of C11 (lists capped at 4 pairs; Go's sort.Slice is stable up to 12 elements); C11 now has a long-list space (all name sequences over 2 names up to length 13/16 and periodic patterns up to 300 pairs) and C16 long queries"),
  "C12a":("C12",["C12"],"missed by the first version of C12 (no SetSearch value that the parser alters beyond percent-encoding); search/hash value menus now contain tab/newline and invalid UTF-8, C11's query alphabet a tab"),
@@ -41,6 +40,21 @@ NOTES={
  "C18b":("C18",["C18","C17"],""),
  "C19b":("C19",["C19"],""),
  "C20b":("C20",["C20"],""),
+ "C02c":("C02",["C02","C10"],""),
+ "C04c":("C04",["C04","C03","C05"],""),
+ "C05c":("C05",["C05","C04","C19"],"same change as C04a, found independently. Missed by the first version of C05 (all start URLs were parsed without a base, the stale cache needs a URL produced by the relative state); the start states now include URLs parsed with a base. C04 and C19 caught it unchanged through their resolve operations"),
+ "C06c":("C06",["C06"],""),
+ "C07c":("C07",["C14"],"a concurrency defect filed under C07 by its author (shared scratch array in the parser value): not visible to any sequential check by construction; caught by C14 (data race between two concurrent IPv4 parses)"),
+ "C09a":("C09",["C09"],""),
+ "C09c":("C09",["C09"],""),
+ "C10c":("C10",["C14"],"a concurrency defect filed under C10 by its author (encoder scratch buffers moved into the shared parser value): sequentially invisible by construction; caught by C14"),
+ "C11c":("C11",["C11"],""),
+ "C12c":("C12",["C12"],""),
+ "C13c":("C13",["C13","C06"],"missed by the first version of C13 and C06 (no reference spelling out the base's own scheme, e.g. 'file:d' against a file base); such references were added to the resolve menus of the history explorer, to C06 and to C14"),
+ "C14c":("C14",["C14"],""),
+ "C16c":("C16",["C16"],""),
+ "C19c":("C19",["C19"],""),
+ "C20c":("C20",["C20"],""),
  "C20a":("C20",["C20"],"missed by the first version of C20 (only single-fragment repetition families); two-phase families P*n + Q*n over per-slot atom menus were added"),
 }
 for d in sorted(glob.glob('/verif/seeded/*/')):
